@@ -145,6 +145,30 @@ def handle (line : String) : String :=
       match Code4.from_rh_vector str with
       | .error e => "err\t" ++ excName e
       | .ok o => s!"ok\t{showORat o.base_score}\t{showOStr (Code4.rh_vector o)}"
+  | ["E2", a, b] =>   -- `==` and the hash key of two constructed objects, as translated
+    match decodeStr a, decodeStr b with
+    | some sa, some sb =>
+      match Code2.construct sa, Code2.construct sb with
+      | .ok oa, .ok ob =>
+        s!"ok\t{match Code2.__eq__ oa ob with | .ok r => toString r | .error _ => "EXC"}\t{showOStr (Code2.__hash__ oa)}"
+      | _, _ => "rejected"
+    | _, _ => "bad-op"
+  | ["E3", a, b] =>   -- `==` and the hash key of two constructed objects, as translated
+    match decodeStr a, decodeStr b with
+    | some sa, some sb =>
+      match Code3.construct sa, Code3.construct sb with
+      | .ok oa, .ok ob =>
+        s!"ok\t{match Code3.__eq__ oa ob with | .ok r => toString r | .error _ => "EXC"}\t{showOStr (Code3.__hash__ oa)}"
+      | _, _ => "rejected"
+    | _, _ => "bad-op"
+  | ["E4", a, b] =>   -- `==` and the hash key of two constructed objects, as translated
+    match decodeStr a, decodeStr b with
+    | some sa, some sb =>
+      match Code4.construct sa, Code4.construct sb with
+      | .ok oa, .ok ob =>
+        s!"ok\t{match Code4.__eq__ oa ob with | .ok r => toString r | .error _ => "EXC"}\t{showOStr (Code4.__hash__ oa)}"
+      | _, _ => "rejected"
+    | _, _ => "bad-op"
   | ["J4", s, num, den] =>   -- v4 compute_severity / as_json as translated, on the object the real code scored
     match decodeStr s, num.toInt?, den.toNat? with
     | some str, some n, some d =>
